@@ -70,6 +70,20 @@ Theorem C09_failed_write : forall k n fs ops o, streaming k = true -> 1 <= n -> 
   failed_obs (snd r) = true /\ fst (fst r) = fst st /\ log_bytes (snd (fst r)) = log_bytes (snd st).
 Proof. exact (c09_failed_write deflate deflate_wf). Qed.
 
+(* durability: k samples of one schema (same skeleton, same signature) through a
+   streaming collector with chunk size n on a fault-free writer are all accepted,
+   and at least n * floor((k-1)/n) of them are already in the writer (counted by
+   reading the writer's documents back) *)
+Theorem C09_durability : forall docs k n nows,
+  Forall doc_wf docs -> same_schema docs ->
+  (forall a b, In a docs -> In b docs -> schema_sig a = schema_sig b) ->
+  streaming k = true -> 1 <= n < 2 ^ 31 -> length nows = length docs ->
+  let res := run deflate (new_coll k n, mkWriter [] [] false) (add_ops docs nows) in
+  snd res = map (fun _ => BAdd ROk) docs /\
+  exists m, samples_in inflate (snd (fst res)) = Some m /\
+            n * ((Z.of_nat (length docs) - 1) / n) <= Z.of_nat m.
+Proof. intros docs k n nows H1 H2 H3. exact (c09_durability deflate inflate inflate_deflate docs H1 H2 H3 k n nows). Qed.
+
 End C09.
 
 (* the known finding D18 as a theorem about the faithful model: a Write that
@@ -94,4 +108,18 @@ Print Assumptions C09_log_wellformed.
 Print Assumptions C09_prefix.
 Print Assumptions C09_faults_error.
 Print Assumptions C09_failed_write.
+Print Assumptions C09_durability.
 Print Assumptions C09_short_write_refuted.
+
+(* non-vacuity: a history through the streaming dynamic collector with metadata,
+   a non-metric binary leaf of subtype 0x80, a schema change, and the schedule
+   error / success / error satisfies every hypothesis; two operations fail and
+   report it, the executable statement holds, four documents reach the writer *)
+Example C09_example :
+  ops_ok KSDyn ex_ops /\ Forall op_frame_ok ex_ops /\ ops_fit 2 ex_ops /\ no_short [FError; FNone; FError] /\
+  snd (run sw_deflate (new_coll KSDyn 2, mkWriter [] [FError; FNone; FError] false) ex_ops) =
+    [BSetMeta; BAdd ROk; BAdd ROk; BAdd RFlush; BAdd ROk; BAdd RFlush; BFlush true] /\
+  c09_run sw_deflate sw_inflate KSDyn 2 [FError; FNone; FError] ex_ops = true /\
+  Forall (fun d => small (enc_doc d)) (emitted (snd (c09_reach sw_deflate KSDyn 2 [FError; FNone; FError] ex_ops))) /\
+  length (emitted (snd (c09_reach sw_deflate KSDyn 2 [FError; FNone; FError] ex_ops))) = 4%nat.
+Proof. exact c09_example. Qed.
